@@ -96,6 +96,24 @@ Proof. vm_compute. repeat split. Qed.
 Print Assumptions C04_reject_mixed_negation.
 Print Assumptions C04_reject_unterminated_substvar.
 
+(* (r15) a qualifier or a restriction with NO package name in front of it - a valid field with one ',' or '|' inserted, a
+   clause where a relation should begin - is refused, not dropped: when the possibility loop ends at a separator without
+   having added a possibility and yet has consumed something, parsePossibility fails; a trailing or doubled separator, which
+   consumes nothing, is still nothing *)
+Theorem C04_restriction_without_a_name_is_refused : forall f rel i rel' r, eqc (peek (eat_ws i)) 36 = false ->
+  possi_loop f fresh rel (eat_ws i) = Ok (rel', r) -> List.length rel' = List.length rel -> List.length r <> List.length (eat_ws i) ->
+  parse_possibility f rel i = Err.
+Proof.
+  intros f rel i rel' r N P L R. unfold parse_possibility. rewrite N, P. unfold guard_possi, nameless.
+  rewrite L, Nat.eqb_refl. apply Nat.eqb_neq in R. now rewrite R.
+Qed.
+Example C04_restrictions_without_a_name :
+  parse (s "foo, (>= 2.0)") = Err /\ parse (s "foo | (<< 2.0), bar") = Err /\ parse (s "foo, [amd64]") = Err /\
+  parse (s "foo, <!nocheck>") = Err /\ parse (s "(>= 2.0)") = Err /\ parse (s "foo, :any") = Err /\ parse (s "foo | [] , bar") = Err /\
+  parse (s "foo, ") = parse (s "foo") /\ parse (s "foo,, bar") = parse (s "foo, bar") /\ parse (s "foo (>= 2.0)") <> Err.
+Proof. vm_compute. repeat split; discriminate. Qed.
+Print Assumptions C04_restriction_without_a_name_is_refused.
+
 (* the other malformed classes as local facts, valid in every context: each scanner fails at the point of
    the defect (the tie's corruption stream exercises them through Parse) *)
 Theorem C04_local_second_version : forall f p w x v0, p_ver p = Some v0 -> all_ws w -> controllers (S f) p (w ++ ch 40 :: x) = Err.
